@@ -66,8 +66,8 @@ theorem css_assemble (H : Mat) (hcss : isCss H = true) (n : Nat) (e cx cz : Vec)
   refine ⟨by simp [hxl, hzl]; omega, binary_append hxb hzb, ?_⟩
   have hlen : cx.length = cz.length := by omega
   apply css_syndrome_eq_of_sectors H hcss
-  · rw [zPart_append cx cz hlen, hzs, css_xrow_block H hcss e]
-  · rw [xPart_append cx cz hlen, hxs, css_zrow_block H hcss e]
+  · rw [zPart_append_dec cx cz hlen, hzs, css_xrow_block H hcss e]
+  · rw [xPart_append_dec cx cz hlen, hxs, css_zrow_block H hcss e]
 
 /-- same syndrome ⇒ the sum is in the code space -/
 theorem in_codespace_of_same_syndrome (H : Mat) (e c : Vec) (hlen : e.length = c.length)
@@ -139,7 +139,7 @@ theorem matching_valid {W : Type} (solve : WSolver W) (H : Mat) (n : Nat)
   have hlen : (measureSyndrome H e).length = H.length := measureSyndrome_length H e
   unfold MatchingDec.decode
   rw [hH, hn, het, hmx, hmz]
-  simp only [ErrType.doesX, ErrType.doesZ, beq_self_eq_true, Bool.true_or, if_true]
+  simp only [ErrType_dec.doesX, ErrType_dec.doesZ, beq_self_eq_true, Bool.true_or, if_true]
   rw [matchHalf_active solve H n _ extractZSyndrome _ hlen hX.1,
       matchHalf_active solve H n _ extractXSyndrome _ hlen hZ.1]
   exact ⟨_, _, rfl, rfl, css_assemble H hcss n e _ _ hX hZ⟩
@@ -162,8 +162,8 @@ theorem matching_valid_X {W : Type} (solve : WSolver W) (H : Mat) (n : Nat)
   have hlen : (measureSyndrome H e).length = H.length := measureSyndrome_length H e
   unfold MatchingDec.decode
   rw [hH, hn, het, hmx, hmz]
-  have h1 : ErrType.X.doesX = true := rfl
-  have h2 : ErrType.X.doesZ = false := rfl
+  have h1 : ErrType_dec.X.doesX = true := rfl
+  have h2 : ErrType_dec.X.doesZ = false := rfl
   simp only [h1, h2, if_true]
   rw [matchHalf_active solve H n _ extractZSyndrome _ hlen hX.1, matchHalf_inactive]
   exact ⟨_, rfl, hX⟩
@@ -186,13 +186,13 @@ theorem uf_valid (uf : USolver) (H : Mat) (n : Nat) (hcss : isCss H = true)
 
 /-! ### BP-OSD -/
 
-theorem bposd_css_valid (S : BpSolver) (d : BpDec) (hcss : isCss d.H = true)
+theorem bposd_css_valid (S : BpSolver) (d : BpDec_dec) (hcss : isCss d.H = true)
     (hSX : BpValidOn d.n S (Hz d.H)) (hSZ : BpValidOn d.n S (Hx d.H))
     (e : Vec) (he : e.length = 2 * d.n) :
     ∃ c, d.pureDecode S (measureSyndrome d.H e) = .ok c ∧
       c.length = 2 * d.n ∧ (∀ x ∈ c, x < 2) ∧ measureSyndrome d.H c = measureSyndrome d.H e := by
   have hlen : (measureSyndrome d.H e).length = d.H.length := measureSyndrome_length d.H e
-  unfold BpDec.pureDecode
+  unfold BpDec_dec.pureDecode
   simp only [hcss, if_true, hlen]
   refine ⟨_, rfl, ?_⟩
   apply css_assemble d.H hcss d.n e
@@ -214,13 +214,13 @@ theorem dot_append : ∀ (a b a' b' : List Nat), a.length = b.length →
 theorem symp_eq_dot_swap (r v : Vec) (n : Nat) (hr : r.length = 2 * n) (hv : v.length = 2 * n) :
     symp r v = dot r (zPart v ++ xPart v) % 2 := by
   unfold symp
-  conv => rhs; rw [← xPart_append_zPart r]
+  conv => rhs; rw [← xPart_append_zPart_dec r]
   rw [dot_append (xPart r) (zPart v) (zPart r) (xPart v)
     (by rw [xPart_length_of r n hr, zPart_length_of v n hv])]
 
 theorem measure_eq_sector_swap (H : Mat) (n : Nat) (hrows : ∀ r ∈ H, r.length = 2 * n) (v : Vec)
     (hv : v.length = 2 * n) : measureSyndrome H v = sectorSyndrome H (zPart v ++ xPart v) := by
-  rw [measureSyndrome_eq]
+  rw [measureSyndrome_eq_dec]
   unfold sectorSyndrome
   apply List.map_congr_left
   intro r hr
@@ -229,15 +229,15 @@ theorem measure_eq_sector_swap (H : Mat) (n : Nat) (hrows : ∀ r ∈ H, r.lengt
 theorem take_drop_parts (c : Vec) (n : Nat) (hc : c.length = 2 * n) :
     xPart (c.drop n ++ c.take n) = c.drop n ∧ zPart (c.drop n ++ c.take n) = c.take n := by
   have h1 : (c.drop n).length = (c.take n).length := by simp; omega
-  exact ⟨xPart_append _ _ h1, zPart_append _ _ h1⟩
+  exact ⟨xPart_append_dec _ _ h1, zPart_append_dec _ _ h1⟩
 
-theorem bposd_noncss_valid (S : BpSolver) (d : BpDec) (hcss : isCss d.H = false)
+theorem bposd_noncss_valid (S : BpSolver) (d : BpDec_dec) (hcss : isCss d.H = false)
     (hrows : ∀ r ∈ d.H, r.length = 2 * d.n)
     (hS : BpValidOn (2 * d.n) S d.H) (e : Vec) (he : e.length = 2 * d.n) :
     ∃ c, d.pureDecode S (measureSyndrome d.H e) = .ok c ∧
       c.length = 2 * d.n ∧ (∀ x ∈ c, x < 2) ∧ measureSyndrome d.H c = measureSyndrome d.H e := by
   have hlen : (measureSyndrome d.H e).length = d.H.length := measureSyndrome_length d.H e
-  unfold BpDec.pureDecode
+  unfold BpDec_dec.pureDecode
   simp only [hcss, Bool.false_eq_true, if_false, hlen, if_true]
   have hfeas : Feasible (2 * d.n) d.H (measureSyndrome d.H e) :=
     ⟨zPart e ++ xPart e, by simp [xPart_length_of e d.n he, zPart_length_of e d.n he]; omega,
